@@ -87,7 +87,6 @@ PARTIAL = [
 
 TWO_PI = 2 * math.pi
 HALF_PI = math.pi / 2
-FACT_DEFAULT = 4
 
 
 # ---------------------------------------------------------------------------------------------
@@ -434,8 +433,9 @@ def lean_disc_sets(ctx, case, lean_circ):
         vec = np.array(parse_floats(w[2:5]))
         r = h2f(w[5])
         incl, nest = w[6] == '1', w[7] == '1'
-        parsed.append(dict(depth=depth, nside=nside, vec=vec, radius=r, inclusive=incl, nest=nest))
-        sets.append(set(hp.query_disc(nside, vec, r, inclusive=incl, nest=nest).tolist()))
+        fact = int(w[8])
+        parsed.append(dict(depth=depth, nside=nside, vec=vec, radius=r, inclusive=incl, nest=nest, fact=fact))
+        sets.append(set(hp.query_disc(nside, vec, r, inclusive=incl, fact=fact, nest=nest).tolist()))
     return sets, parsed
 
 
@@ -531,12 +531,12 @@ def run_circle_case(ctx, case, pts, spec_only=False):
             ctx.fail('corr', case, f'add_circles made {len(dcalls)} query_disc calls for {len(cs)} circles', dict(sig_base, what='handoff-disc-count'))
         for a, pm in zip(dcalls, parsed):
             ok = (int(a['nside']) == pm['nside'] and bool(a['inclusive']) == pm['inclusive'] and bool(a['nest']) == pm['nest']
-                  and int(a['fact']) == FACT_DEFAULT and a.get('buff') is None
+                  and int(a['fact']) == pm['fact'] and a.get('buff') is None
                   and args_close(a['vec'], pm['vec'], 1e-14) and common.close(float(a['radius']), pm['radius'], rel=1e-15))
             if not ok:
                 ctx.fail('corr', case, f"query_disc received nside={a['nside']} vec={np.ravel(a['vec']).tolist()} radius={float(a['radius'])!r} "
                          f"inclusive={a['inclusive']} fact={a['fact']} nest={a['nest']}; model: nside={pm['nside']} vec={pm['vec'].tolist()} "
-                         f"radius={pm['radius']!r} inclusive={pm['inclusive']} fact={FACT_DEFAULT} nest={pm['nest']}",
+                         f"radius={pm['radius']!r} inclusive={pm['inclusive']} fact={pm['fact']} nest={pm['nest']}",
                          dict(sig_base, what='handoff-query_disc'))
                 break
     # ---- round 2: Spec ----
@@ -735,9 +735,9 @@ def run_poly_case(ctx, case, pts, spec_only=False):
         # property ("contains every interior position") is violated.  If healpy rejects the model's arguments too,
         # the input is outside the property (degenerate / not convex for healpy) and is only counted.
         w = lp.split()
-        verts0 = np.array(parse_floats(w[4:])).reshape(-1, 3)
+        verts0 = np.array(parse_floats(w[5:])).reshape(-1, 3)
         try:
-            hp.query_polygon(int(w[1]), verts0, inclusive=(w[2] == '1'), nest=(w[3] == '1'))
+            hp.query_polygon(int(w[1]), verts0, inclusive=(w[2] == '1'), fact=int(w[4]), nest=(w[3] == '1'))
             accepted = True
         except Exception:
             accepted = False
@@ -757,19 +757,19 @@ def run_poly_case(ctx, case, pts, spec_only=False):
         lws.append(ans[k:k + len(allp)])
         k += len(allp)
     w = lp.split()
-    depth, nside, incl, nest = int(w[0]), int(w[1]), w[2] == '1', w[3] == '1'
-    verts = np.array(parse_floats(w[4:])).reshape(-1, 3)
-    dset = set(hp.query_polygon(nside, verts, inclusive=incl, nest=nest).tolist())
+    depth, nside, incl, nest, fact = int(w[0]), int(w[1]), w[2] == '1', w[3] == '1', int(w[4])
+    verts = np.array(parse_floats(w[5:])).reshape(-1, 3)
+    dset = set(hp.query_polygon(nside, verts, inclusive=incl, fact=fact, nest=nest).tolist())
     if not spec_only:
         pc = [a for n, a in calls if n == 'query_polygon']
         ok = len(pc) == 1
         if ok:
             a = pc[0]
-            ok = (int(a['nside']) == nside and bool(a['inclusive']) == incl and bool(a['nest']) == nest and int(a['fact']) == FACT_DEFAULT
+            ok = (int(a['nside']) == nside and bool(a['inclusive']) == incl and bool(a['nest']) == nest and int(a['fact']) == fact
                   and a.get('buff') is None and np.shape(a['vertices']) == verts.shape and args_close(a['vertices'], verts, 1e-14))
         if not ok:
             ctx.fail('corr', case, f'query_polygon calls {[(int(a["nside"]), bool(a["inclusive"]), bool(a["nest"]), int(a["fact"]), np.shape(a["vertices"])) for a in pc]}; '
-                     f'model nside={nside} inclusive={incl} nest={nest} fact={FACT_DEFAULT} vertices={verts.tolist()}', dict(sig_base, what='handoff-query_polygon'))
+                     f'model nside={nside} inclusive={incl} nest={nest} fact={fact} vertices={verts.tolist()}', dict(sig_base, what='handoff-query_polygon'))
     vs = [unit(*p) for p in case['positions']]
     rac, decc, R = case['circum']
     req, plans = [], []
@@ -898,22 +898,38 @@ def conversion_checks(ctx, n):
 # ---------------------------------------------------------------------------------------------
 
 def sample_contract(ctx, n_disc, n_poly, max_depth):
+    """the contract is sampled AT THE OVERSAMPLING FACTORS THE CODE USES (regenerated from the source: Gen.C09.discFact /
+    polyFact, healpy's default 4 when `fact=` is not passed).  The property leaves the factor free; the theorems hold for
+    every factor whose slack satisfies 2*rho + slack <= 3 pixel sizes, and that numeric hypothesis is what is checked here:
+    if the factor in use violates it (fact = 1: 3.13 pixel sizes) the exclusion clause is no longer a theorem about this
+    code => 'corr' failure (what='contract-hypothesis'), not a broken check."""
     import healpy as hp
     rng = ctx.rng
-    rep = dict(label='SAMPLED contract of healpy (assumption of the _partial theorems), not proved')
+    dfact, pfact = (int(x) for x in ctx.driver.batch(['facts'])[0].split())
+    rep = dict(label='SAMPLED contract of healpy (assumption of the _partial theorems), not proved',
+               fact_used=dict(query_disc=dfact, query_polygon=pfact))
+    for nm, fct in (('query_disc', dfact), ('query_polygon', pfact)):
+        if fct < 1 or fct & (fct - 1):
+            ctx.note(f'{nm} is handed fact={fct}, not a power of two >= 1: healpy rejects it in the nested scheme; contract not sampled')
+            ctx.extra['contract_sampled'] = rep
+            return
     # numeric bound, every depth the property names (and beyond)
     worst = 0
     for d in range(0, 14):
         ns = 2 ** d
-        v = (2 * hp.max_pixrad(ns) + hp.max_pixrad(4 * ns)) / hp.nside2resol(ns)
+        v = (2 * hp.max_pixrad(ns) + hp.max_pixrad(min(dfact * ns, 2 ** 29))) / hp.nside2resol(ns)
         worst = max(worst, v)
         if not common.close(hp.nside2resol(ns), pix_size(d), rel=1e-12):
             raise RuntimeError(f'contract sample falsified: nside2resol({ns}) != sqrt(4pi/(12*4^d))')
         if not common.close(hp.nside2pixarea(ns), 4 * math.pi / (12 * 4 ** d), rel=1e-12):
             raise RuntimeError(f'contract sample falsified: nside2pixarea({ns})')
-    rep['max (2*rho + rho_fine)/pixsize, depth 0..13'] = worst
+    rep[f'max (2*rho + rho_fine(fact={dfact}))/pixsize, depth 0..13'] = worst
     if worst > 3:
-        raise RuntimeError(f'contract sample falsified: 2*rho+slack = {worst} pixel sizes > 3')
+        ctx.fail('corr', dict(kind='contract-hypothesis', fact=dfact, bound_in_pixel_sizes=worst),
+                 f'add_circles hands fact={dfact} to healpy.query_disc; for that oversampling factor the contract only gives '
+                 f'r + 2*rho + rho_fine = r + {worst:.3f} pixel sizes, so the hypothesis 2*rho + slack <= 3 pixel sizes of '
+                 f'circle_excludes_beyond_partial is false and the exclusion clause is not a theorem about this code',
+                 dict(what='contract-hypothesis', shape='circle', fact=dfact))
     # ang2pix: contains q (its centre is the nearest-ish: within rho), nesting
     nq = 4000
     z = np.array([rng.uniform(-1, 1) for _ in range(nq)])
@@ -942,11 +958,11 @@ def sample_contract(ctx, n_disc, n_poly, max_depth):
     for t in range(n_disc):
         d = rng.randint(1, max_depth)
         ns = 2 ** d
-        rho, rhof = hp.max_pixrad(ns), hp.max_pixrad(4 * ns)
+        rho, rhof = hp.max_pixrad(ns), hp.max_pixrad(dfact * ns)
         ra, dec = gen_centre(rng, CENTRE_CLASSES[t % len(CENTRE_CLASSES)])
         v = unit(ra, dec)
         r = math.radians(10 ** rng.uniform(-2, math.log10(60)))
-        D = hp.query_disc(ns, v, r, inclusive=True, nest=True)
+        D = hp.query_disc(ns, v, r, inclusive=True, fact=dfact, nest=True)
         allp = np.arange(12 * ns * ns)
         cen = np.array(hp.pix2vec(ns, allp, nest=True)).T
         dist = vec_angle(cen, v)
@@ -978,7 +994,7 @@ def sample_contract(ctx, n_disc, n_poly, max_depth):
         pos = gen_polygon(rng, rac, decc, R, k)
         vs = np.array([unit(*p) for p in pos])
         try:
-            D = hp.query_polygon(ns, vs, inclusive=True, nest=True)
+            D = hp.query_polygon(ns, vs, inclusive=True, fact=pfact, nest=True)
         except Exception:
             ctx.count('contract-sample:polygon-rejected')
             continue
@@ -1000,8 +1016,13 @@ def sample_contract(ctx, n_disc, n_poly, max_depth):
     rep['query_polygon: pixels meeting the polygon (4x finer grid) but not returned'] = missp
     rho_ratio = hp.max_pixrad(4096) / hp.nside2resol(4096)
     rep['2*rho + sampled slack, in pixel sizes'] = (2 + wp) * rho_ratio
-    if missp or (2 + wp) * rho_ratio > 3:
-        raise RuntimeError(f'contract sample falsified: query_polygon slack {wp} rho, missing {missp}')
+    if missp:
+        raise RuntimeError(f'contract sample falsified: query_polygon missing {missp}')
+    if (2 + wp) * rho_ratio > 3:
+        ctx.fail('corr', dict(kind='contract-hypothesis', fact=pfact, bound_in_pixel_sizes=(2 + wp) * rho_ratio),
+                 f'add_poly hands fact={pfact} to healpy.query_polygon; the sampled slack {wp:.3f} rho gives 2*rho + slack = '
+                 f'{(2 + wp) * rho_ratio:.3f} pixel sizes > 3, so the hypothesis of poly_excludes_beyond_partial is false for this code',
+                 dict(what='contract-hypothesis', shape='polygon', fact=pfact))
     ctx.extra['contract_sampled'] = rep
 
 
@@ -1335,15 +1356,15 @@ def big_disc_case(ctx, depth, r, ra, dec, nring, tag):
     la = ctx.driver.batch([f"circ {depth} {depth} {hexes(ra, dec, r)}", f"pix {depth}"] +
                           [f"aspec {f2h(r)} {depth} {f2h(v if u == 'sr' else v / DEG2)}" for u, v in areas])
     w = la[0].split()
-    pm = dict(nside=int(w[1]), vec=np.array(parse_floats(w[2:5])), radius=h2f(w[5]), inclusive=w[6] == '1', nest=w[7] == '1')
+    pm = dict(nside=int(w[1]), vec=np.array(parse_floats(w[2:5])), radius=h2f(w[5]), inclusive=w[6] == '1', nest=w[7] == '1', fact=int(w[8]))
     ok = len(calls) == 1 and int(calls[0]['nside']) == pm['nside'] and bool(calls[0]['inclusive']) == pm['inclusive'] \
-        and bool(calls[0]['nest']) == pm['nest'] and int(calls[0]['fact']) == FACT_DEFAULT \
+        and bool(calls[0]['nest']) == pm['nest'] and int(calls[0]['fact']) == pm['fact'] \
         and args_close(calls[0]['vec'], pm['vec'], 1e-14) and common.close(float(calls[0]['radius']), pm['radius'], rel=1e-15)
     if not ok:
         ctx.fail('corr', case_pub(case), f"query_disc calls {[(int(a['nside']), float(a['radius']), bool(a['inclusive']), int(a['fact']), bool(a['nest'])) for a in calls]}; "
-                 f"model: nside={pm['nside']} radius={pm['radius']!r} inclusive={pm['inclusive']} fact={FACT_DEFAULT} nest={pm['nest']}",
+                 f"model: nside={pm['nside']} radius={pm['radius']!r} inclusive={pm['inclusive']} fact={pm['fact']} nest={pm['nest']}",
                  dict(sig_base, what='handoff-query_disc'))
-    D = hp.query_disc(pm['nside'], pm['vec'], pm['radius'], inclusive=pm['inclusive'], nest=pm['nest'])
+    D = hp.query_disc(pm['nside'], pm['vec'], pm['radius'], inclusive=pm['inclusive'], fact=pm['fact'], nest=pm['nest'])
     pa = h2f(la[1].split()[1])
     for (u, v), verdict in zip(areas, la[2:]):
         ctx.case(dict(case_pub(case), kind='circle-area', unit=u), ('area', tag, u))
@@ -1569,6 +1590,8 @@ def replay(ctx, rec):
         ctx.note('replay: the record names a proof obligation, not an input; re-running the search')
         return search(ctx)
     kind = case.get('kind')
+    if kind == 'contract-hypothesis':
+        return sample_contract(ctx, 4, 2, 4)
     if kind in ('sky2vec', 'sky2ang', 'vec2sky', 'roundtrip'):
         return conversion_checks(ctx, 50)
     if kind == 'big-query':
